@@ -837,6 +837,56 @@ def r13_defaults_idempotent(idx, r):
         raise AnalysisError(f"only {n} balance-element computations found")
 
 
+MATERIAL = "armi.materials.material.Material"
+REFDENS_EXEMPT = {
+    "Custom": "density is given by the input (custom isotopics), not by the library",
+    "Void": "a void has no mass by definition",
+}
+
+
+def r14_reference_density(idx, r):
+    """Material.density / Material.pseudoDensity divide `self.refDens`, which Material.__init__ sets to 0.0.  A library material whose
+    density() or pseudoDensity() ends (directly, through super(), or through the other of the two) in the base implementation therefore needs
+    an assignment of `self.refDens` in one of its own methods, or that entry point returns 0.  A class attribute `refDens` does not count:
+    the instance attribute written by Material.__init__ hides it."""
+    base = idx.cls(MATERIAL)
+    subs = [c for c in idx.subclasses(base) if c.fq.startswith("armi.materials.") and ".tests" not in c.fq]
+    leaves = [c for c in subs if not any(o is not c and c in o.mro()[1:] for o in subs)]
+    n = 0
+    for c in sorted(leaves, key=lambda k: k.fq):
+        if c.name in REFDENS_EXEMPT or c.name.startswith("_"):
+            continue
+        own = [k for k in c.mro() if k.fq != MATERIAL and k.fq.startswith("armi.")]
+        sets = [s_ for k in own for f in k.methods.values() for s_ in iter_stores(f.node) if s_.chain == "self.refDens" and s_.value is not None and norm(s_.value) not in ("0.0", "0", "None")]
+        shadowed = [k.name for k in own if any(isinstance(st, ast.Assign) and any(norm(t) == "refDens" for t in st.targets) for st in k.node.body)]
+        for entry in ("density", "pseudoDensity"):
+            seen, todo, needs = set(), [(None, entry)], False
+            while todo:
+                start, m = todo.pop()
+                f = c.resolve(m) if start is None else c.resolve_after(start, m)
+                if f is None or (f.cls.fq, m) in seen:
+                    continue
+                seen.add((f.cls.fq, m))
+                if f.cls.fq == MATERIAL:
+                    needs = True
+                    break
+                for call in iter_calls(f.node):
+                    t = norm(call.func)
+                    if t in (f"super().{m}", f"super({f.cls.name}, self).{m}") or (call_attr(call) == m and t.split(".")[0] not in ("self", "super()") and call.args and norm(call.args[0]) == "self"):
+                        todo.append((f.cls, m))
+                    for other in ("density", "pseudoDensity"):
+                        if t == f"self.{other}" and other != m:
+                            todo.append((None, other))
+            if not needs:
+                continue
+            n += 1
+            r.require(bool(sets), f"{c.name}.{entry}:reference-density-assigned", c, node=c.node,
+                      msg=f"{c.name}.{entry}() ends in Material.{entry if (c.resolve(entry).cls.fq == MATERIAL) else 'density/pseudoDensity'}, which divides self.refDens, but no method of {c.name} assigns self.refDens "
+                          f"(Material.__init__ sets 0.0{'; the class attribute refDens of ' + shadowed[0] + ' is hidden by it' if shadowed else ''}): the density is 0 at every temperature")
+    if n < 20:
+        raise AnalysisError(f"only {n} materials found that use the base density")
+
+
 def run(idx, chk):
     chk.explanation = (
         "C19: nuclides.dat, elements.dat, burn-chain.yaml and mcc-nuclides.yaml are parsed as data and linted exhaustively (unique (Z,A,S), N=A-Z, "
@@ -870,3 +920,5 @@ def run(idx, chk):
                  necessary="every identifier decodes to its (Z, A, state); compositions stay normalised through copies and refused edits")
     chk.run_rule("R19.13", "a balance element is computed without the balance of an earlier call (setDefaultMassFracs is idempotent)", lambda r: r13_defaults_idempotent(idx, r), floor=3,
                  necessary="every default composition sums to one however often the defaults are (re-)applied")
+    chk.run_rule("R19.14", "a material whose density()/pseudoDensity() ends in the base implementation assigns the reference density it divides", lambda r: r14_reference_density(idx, r), floor=20,
+                 necessary="every library material has finite positive density")
